@@ -316,6 +316,66 @@ def tlc_generate(module, cfg, world, family, extra=(), timeout=1500):
 
 
 # ---------------------------------------------------------------------------------------------- corpus execution
+def run_may_die(scn_path, trace, rundir, i, stats):
+    """C25: a Go runtime fatal error (concurrent map read and write ...) kills the driver process. The death is itself an
+    observation: it is appended to the trace as a `Fatal` record of the scenario that was running, and the remaining
+    scenarios are run by a new process."""
+    todo = [json.loads(l) for l in open(scn_path) if l.strip()]
+    parts = []
+    total = {}
+    for attempt in range(len(todo) + 1):
+        if not todo:
+            break
+        part_s = os.path.join(rundir, "scnC%d_%d.ndjson" % (i, attempt))
+        part_t = os.path.join(rundir, "traceC%d_%d.ndjson" % (i, attempt))
+        with open(part_s, "w") as f:
+            for s in todo:
+                f.write(json.dumps(s) + "\n")
+        st = part_t + ".stats"
+        rc, out = sh([os.path.join(WORK, "bin/driver"), "-scenarios", part_s, "-out", part_t, "-work", os.path.join(rundir, "dbC%d_%d" % (i, attempt)), "-stats", st], timeout=3000)
+        parts.append(part_t)
+        if os.path.exists(st):
+            for k, v in json.load(open(st)).items():
+                total[k] = total.get(k, 0) + v
+        if rc == 0:
+            todo = []
+            break
+        # which scenario was running?
+        last, n, ended = None, 0, False
+        if os.path.exists(part_t):
+            for line in open(part_t):
+                try:
+                    r = json.loads(line)
+                except Exception:
+                    ended = True      # a torn last line
+                    continue
+                last, n = r["sc"], r["i"]
+        if last is None:
+            return "driver died before the first record: " + out[-1200:]
+        m = re.search(r"(fatal error: [^\n]*|panic: [^\n]*)", out)
+        msg = m.group(1) if m else ("driver exit code %d: %s" % (rc, out[-300:]))
+        with open(part_t, "a") as f:
+            if ended:
+                f.write("\n")
+            f.write(json.dumps({"sc": last, "i": n + 1, "node": "A", "kind": "Fatal", "h": 0, "check": -1, "resp": {"code": 0, "gas": 0, "tags": {}, "log": ""},
+                                "hash": "", "panic": msg, "replay": False}) + "\n")
+        total["fatal"] = total.get("fatal", 0) + 1
+        ids = [s["id"] for s in todo]
+        todo = todo[ids.index(last) + 1:] if last in ids else []
+    with open(trace, "w") as f:
+        for pt in parts:
+            if os.path.exists(pt):
+                for line in open(pt):
+                    if line.strip():
+                        try:
+                            json.loads(line)
+                        except Exception:
+                            continue
+                        f.write(line if line.endswith("\n") else line + "\n")
+    json.dump(total, open(stats, "w"))
+    return None
+
+
 def second_process(scn_path, trace, rundir, i):
     """C08: the same scenarios in a second operating-system process with another scheduler / collector / database setting;
     its observations become the `ideal` side of every record of the first process' trace."""
@@ -393,7 +453,13 @@ def run_corpus(scenarios, tag, shards=None):
                 classes[k] = classes.get(k, 0) + 1
             r["classes"], r["samples"], r["stats"] = classes, [], {"scenarios": len(scs), "records": sum(classes.values())}
             return r
-        rc, out = sh([os.path.join(WORK, "bin/driver"), "-scenarios", p, "-out", trace, "-work", os.path.join(rundir, "db%d" % i), "-stats", stats], timeout=3000)
+        if tag == "concurrency":
+            err = run_may_die(p, trace, rundir, i, stats)
+            if err:
+                return {"error": err}
+            rc = 0
+        else:
+            rc, out = sh([os.path.join(WORK, "bin/driver"), "-scenarios", p, "-out", trace, "-work", os.path.join(rundir, "db%d" % i), "-stats", stats], timeout=3000)
         if rc != 0:
             return {"error": "driver rc=%d: %s" % (rc, out[-1500:])}
         if tag == "determinism":
